@@ -1,6 +1,7 @@
 package main
 
 import (
+	"bytes"
 	"encoding/json"
 	"fmt"
 	"math/rand"
@@ -517,6 +518,19 @@ func checkAggCase(res *Result, ac *aggCase, U []absSig, idx int, repeats int) {
 			got := projAgg(a)
 			if r == 0 {
 				first = got
+				// the sleep range as the HTML page presents it: minimum and maximum over the members
+				{
+					var hb bytes.Buffer
+					if a.ToHTML(&hb, "") == nil {
+						page := hb.String()
+						for _, b := range a.Buckets {
+							if b.SleepMax > 0 && b.SleepMin != b.SleepMax && !strings.Contains(page, fmt.Sprintf("[%d~%d mins]", b.SleepMin, b.SleepMax)) {
+								res.violation(mk("C12", "html-sleep", fmt.Sprintf("%s: the page does not show the sleep range %d~%d of the bucket of goroutines %v", route, b.SleepMin, b.SleepMax, b.IDs), fmt.Sprintf("[%d~%d mins]", b.SleepMin, b.SleepMax), nil))
+								break
+							}
+						}
+					}
+				}
 				c04, c12 := genericAggChecks(snap, a, route)
 				if c04 != "" {
 					res.violation(mk("C04", "partition", c04, nil, got))
